@@ -1,3 +1,839 @@
 // Kani harnesses (child module of crates/axmos-db/src/runtime/eval.rs).  See /verif/HARNESS_GUIDE.md
+// C05: the scalar kernels of the expression evaluator follow SQL three-valued logic, mathematical comparison,
+//      checked integer / IEEE double arithmetic.  `eval_binary_op` / `eval_unary_op` are called DIRECTLY (private
+//      methods; this is a child module).  They never touch `self.row` / `self.schema`, so the evaluator is built
+//      over an empty Row and an empty Schema (its HashMap gets a fixed-key RandomState: `HashMap::new()` would
+//      reach getrandom).  The recursive `evaluate` is NOT called (boxed recursion does not terminate in CBMC).
+// C16: unary minus on MIN (panic) lives here too because `eval_unary_op` is private to this file.
 #![allow(unused_imports, dead_code, clippy::all)]
 use super::*;
+use crate::types::{Float32, Float64, Int32, Int64, UInt32, UInt64};
+use std::cmp::Ordering;
+use std::collections::HashMap;
+
+fn okf<T, E>(r: Result<T, E>) -> Option<T> {
+    match r {
+        Ok(v) => Some(v),
+        Err(e) => {
+            std::mem::forget(e);
+            None
+        }
+    }
+}
+fn mk_schema() -> Schema {
+    let rs: std::collections::hash_map::RandomState = unsafe { std::mem::transmute::<[u64; 2], _>([0u64, 0u64]) };
+    Schema { columns: Vec::new(), num_keys: 0, table_constraints: None, column_index: HashMap::with_hasher(rs), table_indexes: None }
+}
+/// Outcome of a kernel call: Err / a single value.  (A result list of length != 1 is reported as `Many`.)
+enum Out {
+    Err,
+    One(DataType),
+    Many,
+}
+fn bin(ev: &ExpressionEvaluator<'_>, a: &DataType, b: &DataType, op: BinaryOperator) -> Out {
+    match okf(ev.eval_binary_op(vec![a.clone()], vec![b.clone()], op, None)) {
+        None => Out::Err,
+        Some(mut v) => {
+            let out = if v.len() == 1 {
+                match v.pop() {
+                    Some(x) => Out::One(x),
+                    None => Out::Many,
+                }
+            } else {
+                Out::Many
+            };
+            std::mem::forget(v);
+            out
+        }
+    }
+}
+fn un(ev: &ExpressionEvaluator<'_>, a: &DataType, op: UnaryOperator) -> Out {
+    match okf(ev.eval_unary_op(a.clone(), op, None)) {
+        None => Out::Err,
+        Some(x) => Out::One(x),
+    }
+}
+fn is_null_out(o: &Out) -> bool {
+    matches!(o, Out::One(DataType::Null))
+}
+fn is_bool_out(o: &Out, want: bool) -> bool {
+    matches!(o, Out::One(DataType::Bool(Bool(b))) if *b == want)
+}
+macro_rules! with_ev {
+    ($ev:ident, $body:block) => {{
+        let row = Row::new_empty();
+        let schema = mk_schema();
+        {
+            let $ev = ExpressionEvaluator::new(&row, &schema);
+            $body
+        }
+        std::mem::forget(schema);
+        std::mem::forget(row);
+    }};
+}
+
+fn v_int() -> DataType {
+    DataType::Int(Int32(kani::any()))
+}
+fn v_bigint() -> DataType {
+    DataType::BigInt(Int64(kani::any()))
+}
+fn v_uint() -> DataType {
+    DataType::UInt(UInt32(kani::any()))
+}
+fn v_biguint() -> DataType {
+    DataType::BigUInt(UInt64(kani::any()))
+}
+fn v_float() -> DataType {
+    DataType::Float(Float32(kani::any()))
+}
+fn v_double() -> DataType {
+    DataType::Double(Float64(kani::any()))
+}
+fn v_bool() -> DataType {
+    DataType::Bool(Bool(kani::any()))
+}
+
+// =====================================================================================================================
+// AND / OR: Kleene truth tables
+// =====================================================================================================================
+/// SQL truth value of a Null|Bool operand: None = UNKNOWN
+fn tv(d: &DataType) -> Option<bool> {
+    match d {
+        DataType::Bool(Bool(b)) => Some(*b),
+        _ => None,
+    }
+}
+fn and3(a: Option<bool>, b: Option<bool>) -> Option<bool> {
+    if a == Some(false) || b == Some(false) {
+        Some(false)
+    } else if a.is_none() || b.is_none() {
+        None
+    } else {
+        Some(true)
+    }
+}
+fn or3(a: Option<bool>, b: Option<bool>) -> Option<bool> {
+    if a == Some(true) || b == Some(true) {
+        Some(true)
+    } else if a.is_none() || b.is_none() {
+        None
+    } else {
+        Some(false)
+    }
+}
+fn out_is_tv(o: &Out, want: Option<bool>) -> bool {
+    match want {
+        None => is_null_out(o),
+        Some(b) => is_bool_out(o, b),
+    }
+}
+fn logic_law(ev: &ExpressionEvaluator<'_>, a: &DataType, b: &DataType) {
+    let o = bin(ev, a, b, BinaryOperator::And);
+    assert!(out_is_tv(&o, and3(tv(a), tv(b))), "and_follows_3vl_truth_table");
+    std::mem::forget(o);
+    let o = bin(ev, a, b, BinaryOperator::Or);
+    assert!(out_is_tv(&o, or3(tv(a), tv(b))), "or_follows_3vl_truth_table");
+    std::mem::forget(o);
+}
+// @obl harness=c05_binop_logic id=C05.binop[And,Or][Null|Bool x Null|Bool] tier=quick funcs="ExpressionEvaluator::eval_binary_op,ExpressionEvaluator::logical_and,ExpressionEvaluator::logical_or" bounds="all 9 combinations of NULL/TRUE/FALSE for both operators" unwind=4
+#[kani::proof]
+#[kani::unwind(4)]
+fn c05_binop_logic() {
+    kani::cover!(true, "reach");
+    with_ev!(ev, {
+        let n = DataType::Null;
+        logic_law(&ev, &n, &n);
+        logic_law(&ev, &n, &v_bool());
+        logic_law(&ev, &v_bool(), &n);
+        logic_law(&ev, &v_bool(), &v_bool());
+    });
+}
+// a non-boolean operand of AND/OR is a type error, not a panic and not a truth value
+// @obl harness=c05_binop_logic_type id=C05.binop[And,Or][Bool x BigInt] tier=quick funcs="ExpressionEvaluator::eval_binary_op,ExpressionEvaluator::logical_and,ExpressionEvaluator::logical_or" bounds="Bool x BigInt and BigInt x Bool, all values" unwind=4
+#[kani::proof]
+#[kani::unwind(4)]
+fn c05_binop_logic_type() {
+    kani::cover!(true, "reach");
+    with_ev!(ev, {
+        let (b, i) = (v_bool(), v_bigint());
+        let o = bin(&ev, &b, &i, BinaryOperator::And);
+        assert!(matches!(o, Out::Err), "and_non_bool_is_type_error");
+        std::mem::forget(o);
+        let o = bin(&ev, &i, &b, BinaryOperator::Or);
+        assert!(matches!(o, Out::Err), "or_non_bool_is_type_error");
+        std::mem::forget(o);
+    });
+}
+
+// =====================================================================================================================
+// comparisons
+// =====================================================================================================================
+const P53: i128 = 1i128 << 53;
+fn mathval(d: &DataType) -> Result<i128, f64> {
+    match d {
+        DataType::Int(v) => Ok(v.0 as i128),
+        DataType::BigInt(v) => Ok(v.0 as i128),
+        DataType::UInt(v) => Ok(v.0 as i128),
+        DataType::BigUInt(v) => Ok(v.0 as i128),
+        DataType::Float(v) => Err(v.0 as f64),
+        DataType::Double(v) => Err(v.0),
+        _ => unreachable!(),
+    }
+}
+fn in53(d: &DataType) -> bool {
+    match mathval(d) {
+        Ok(n) => n >= -P53 && n <= P53,
+        Err(_) => true,
+    }
+}
+/// exact comparison of an integer with a double (None = unordered)
+fn cmp_int_f64(n: i128, x: f64) -> Option<Ordering> {
+    if x.is_nan() {
+        return None;
+    }
+    if x >= 18446744073709551616.0 {
+        return Some(Ordering::Less);
+    }
+    if x <= -18446744073709551616.0 {
+        return Some(Ordering::Greater);
+    }
+    let t = x.trunc();
+    let ti = t as i128;
+    if n < ti {
+        Some(Ordering::Less)
+    } else if n > ti {
+        Some(Ordering::Greater)
+    } else if x > t {
+        Some(Ordering::Less)
+    } else if x < t {
+        Some(Ordering::Greater)
+    } else {
+        Some(Ordering::Equal)
+    }
+}
+/// mathematical order of two numeric values; IEEE: NaN is unordered
+fn mathcmp(a: &DataType, b: &DataType) -> Option<Ordering> {
+    match (mathval(a), mathval(b)) {
+        (Ok(x), Ok(y)) => Some(x.cmp(&y)),
+        (Err(x), Err(y)) => x.partial_cmp(&y),
+        (Ok(n), Err(x)) => cmp_int_f64(n, x),
+        (Err(x), Ok(n)) => cmp_int_f64(n, x).map(|o| o.reverse()),
+    }
+}
+fn cmp_one(ev: &ExpressionEvaluator<'_>, a: &DataType, b: &DataType, op: BinaryOperator, want: bool) -> bool {
+    let o = bin(ev, a, b, op);
+    let ok = is_bool_out(&o, want);
+    std::mem::forget(o);
+    ok
+}
+/// the six comparison operators against the order `m` (None = unordered: only <> is TRUE)
+fn cmp_law(ev: &ExpressionEvaluator<'_>, a: &DataType, b: &DataType, m: Option<Ordering>) {
+    let (lt, eq, gt) = (m == Some(Ordering::Less), m == Some(Ordering::Equal), m == Some(Ordering::Greater));
+    assert!(cmp_one(ev, a, b, BinaryOperator::Eq, eq), "eq_matches_math");
+    assert!(cmp_one(ev, a, b, BinaryOperator::Neq, !eq), "neq_matches_math");
+    assert!(cmp_one(ev, a, b, BinaryOperator::Lt, lt), "lt_matches_math");
+    assert!(cmp_one(ev, a, b, BinaryOperator::Le, lt || eq), "le_matches_math");
+    assert!(cmp_one(ev, a, b, BinaryOperator::Gt, gt), "gt_matches_math");
+    assert!(cmp_one(ev, a, b, BinaryOperator::Ge, gt || eq), "ge_matches_math");
+}
+macro_rules! hcmp {
+    ($name:ident, $a:expr, $b:expr, |$x:ident, $y:ident| $pre:expr) => {
+        #[kani::proof]
+        #[kani::unwind(4)]
+        fn $name() {
+            let $x = $a;
+            let $y = $b;
+            kani::assume($pre);
+            kani::cover!(true, "reach");
+            with_ev!(ev, {
+                let m = mathcmp(&$x, &$y);
+                cmp_law(&ev, &$x, &$y, m);
+            });
+        }
+    };
+}
+// @obl harness=c05_cmp_int_int id=C05.binop[Eq,Neq,Lt,Le,Gt,Ge][Int,Int] tier=quick funcs="ExpressionEvaluator::eval_binary_op,DataType::eq,DataType::partial_cmp" bounds="all i32 pairs" unwind=4
+hcmp!(c05_cmp_int_int, v_int(), v_int(), |a, b| true);
+// @obl harness=c05_cmp_bigint_bigint id=C05.binop[Eq,Neq,Lt,Le,Gt,Ge][BigInt,BigInt/53] tier=quick funcs="ExpressionEvaluator::eval_binary_op,DataType::eq,DataType::partial_cmp" bounds="i64 pairs within +-2^53" unwind=4
+hcmp!(c05_cmp_bigint_bigint, v_bigint(), v_bigint(), |a, b| in53(&a) && in53(&b));
+// @obl harness=c05_cmp_int_bigint id=C05.binop[Eq,Neq,Lt,Le,Gt,Ge][Int,BigInt/53] tier=quick funcs="ExpressionEvaluator::eval_binary_op,DataType::eq,DataType::partial_cmp" bounds="all i32 x i64 within +-2^53" unwind=4
+hcmp!(c05_cmp_int_bigint, v_int(), v_bigint(), |a, b| in53(&b));
+// @obl harness=c05_cmp_double_double id=C05.binop[Eq,Neq,Lt,Le,Gt,Ge][Double,Double] tier=quick funcs="ExpressionEvaluator::eval_binary_op,DataType::eq,DataType::partial_cmp" bounds="all f64 pairs (IEEE: NaN unordered, -0.0 = +0.0)" unwind=4
+hcmp!(c05_cmp_double_double, v_double(), v_double(), |a, b| true);
+// @obl harness=c05_cmp_int_double id=C05.binop[Eq,Neq,Lt,Le,Gt,Ge][Int,Double] tier=quick funcs="ExpressionEvaluator::eval_binary_op,DataType::eq,DataType::partial_cmp" bounds="all i32 x all f64" unwind=4
+hcmp!(c05_cmp_int_double, v_int(), v_double(), |a, b| true);
+// @obl harness=c05_cmp_double_bigint id=C05.binop[Eq,Neq,Lt,Le,Gt,Ge][Double,BigInt/53] tier=quick funcs="ExpressionEvaluator::eval_binary_op,DataType::eq,DataType::partial_cmp" bounds="all f64 x i64 within +-2^53" unwind=4
+hcmp!(c05_cmp_double_bigint, v_double(), v_bigint(), |a, b| in53(&b));
+// region where the pinned tree deviates: 64-bit integers beyond 2^53 are compared through f64
+// @obl harness=c05_cmp_bigint_big id=C05.binop[Eq,Neq,Lt,Le,Gt,Ge][BigInt,BigInt/big] tier=quick funcs="ExpressionEvaluator::eval_binary_op,DataType::eq,DataType::partial_cmp" bounds="i64 pairs with some |v| > 2^53" unwind=4
+hcmp!(c05_cmp_bigint_big, v_bigint(), v_bigint(), |a, b| !(in53(&a) && in53(&b)));
+// @obl harness=c05_cmp_bool_bool id=C05.binop[Eq,Neq,Lt,Le,Gt,Ge][Bool,Bool] tier=quick funcs="ExpressionEvaluator::eval_binary_op,DataType::eq,DataType::partial_cmp" bounds="all pairs (FALSE < TRUE)" unwind=4
+#[kani::proof]
+#[kani::unwind(4)]
+fn c05_cmp_bool_bool() {
+    let (x, y): (bool, bool) = (kani::any(), kani::any());
+    kani::cover!(true, "reach");
+    with_ev!(ev, {
+        cmp_law(&ev, &DataType::Bool(Bool(x)), &DataType::Bool(Bool(y)), Some(x.cmp(&y)));
+    });
+}
+
+// full width: the comparison operators are exactly DataType's ==, !=, <, <=, >, >= (what c06_bounds.rs uses as the
+// table-scan side of C06); exact or not, both plans evaluate the same function
+fn delegates(ev: &ExpressionEvaluator<'_>, a: &DataType, b: &DataType) {
+    assert!(cmp_one(ev, a, b, BinaryOperator::Eq, a == b), "eq_is_datatype_eq");
+    assert!(cmp_one(ev, a, b, BinaryOperator::Neq, a != b), "neq_is_datatype_ne");
+    assert!(cmp_one(ev, a, b, BinaryOperator::Lt, a < b), "lt_is_datatype_lt");
+    assert!(cmp_one(ev, a, b, BinaryOperator::Le, a <= b), "le_is_datatype_le");
+    assert!(cmp_one(ev, a, b, BinaryOperator::Gt, a > b), "gt_is_datatype_gt");
+    assert!(cmp_one(ev, a, b, BinaryOperator::Ge, a >= b), "ge_is_datatype_ge");
+}
+// @obl harness=c05_cmp_delegates id=C05.binop_delegates[Eq,Neq,Lt,Le,Gt,Ge][BigInt,BigInt|BigInt,Double] tier=quick funcs="ExpressionEvaluator::eval_binary_op,DataType::eq,DataType::partial_cmp" bounds="all i64 pairs, all i64 x f64 (full width)" also=C06 unwind=4
+#[kani::proof]
+#[kani::unwind(4)]
+fn c05_cmp_delegates() {
+    kani::cover!(true, "reach");
+    with_ev!(ev, {
+        delegates(&ev, &v_bigint(), &v_bigint());
+        delegates(&ev, &v_bigint(), &v_double());
+    });
+}
+
+// NULL operand: every comparison and every arithmetic operator yields NULL
+fn null_one(ev: &ExpressionEvaluator<'_>, a: &DataType, b: &DataType, op: BinaryOperator) {
+    let o = bin(ev, a, b, op);
+    assert!(is_null_out(&o), "null_operand_yields_null");
+    std::mem::forget(o);
+}
+fn null_cmp(ev: &ExpressionEvaluator<'_>, a: &DataType, b: &DataType) {
+    null_one(ev, a, b, BinaryOperator::Eq);
+    null_one(ev, a, b, BinaryOperator::Neq);
+    null_one(ev, a, b, BinaryOperator::Lt);
+    null_one(ev, a, b, BinaryOperator::Le);
+    null_one(ev, a, b, BinaryOperator::Gt);
+    null_one(ev, a, b, BinaryOperator::Ge);
+}
+fn null_arith(ev: &ExpressionEvaluator<'_>, a: &DataType, b: &DataType) {
+    null_one(ev, a, b, BinaryOperator::Plus);
+    null_one(ev, a, b, BinaryOperator::Minus);
+    null_one(ev, a, b, BinaryOperator::Multiply);
+    null_one(ev, a, b, BinaryOperator::Divide);
+    null_one(ev, a, b, BinaryOperator::Modulo);
+}
+// @obl harness=c05_binop_null_cmp id=C05.binop[Eq,Neq,Lt,Le,Gt,Ge][Null x any] tier=quick funcs="ExpressionEvaluator::eval_binary_op" bounds="NULL against NULL, Bool, BigInt, Double, both sides" unwind=4
+#[kani::proof]
+#[kani::unwind(4)]
+fn c05_binop_null_cmp() {
+    kani::cover!(true, "reach");
+    with_ev!(ev, {
+        let n = DataType::Null;
+        null_cmp(&ev, &n, &n);
+        null_cmp(&ev, &n, &v_bool());
+        null_cmp(&ev, &v_bigint(), &n);
+        null_cmp(&ev, &n, &v_double());
+    });
+}
+// @obl harness=c05_binop_null_arith id=C05.binop[Plus,Minus,Multiply,Divide,Modulo][Null x any] tier=quick funcs="ExpressionEvaluator::eval_binary_op" bounds="NULL against NULL, Int, BigInt (0 and MIN included), Double, both sides" unwind=4
+#[kani::proof]
+#[kani::unwind(4)]
+fn c05_binop_null_arith() {
+    kani::cover!(true, "reach");
+    with_ev!(ev, {
+        let n = DataType::Null;
+        null_arith(&ev, &n, &n);
+        null_arith(&ev, &v_int(), &n);
+        null_arith(&ev, &n, &v_bigint());
+        null_arith(&ev, &v_double(), &n);
+    });
+}
+
+// IS / IS NOT with a boolean right operand (`x IS TRUE`; `x IS NULL` is bound to IsNull and never reaches here)
+// @obl harness=c05_binop_is_bool id=C05.binop[Is,IsNot][Bool,Bool] tier=quick funcs="ExpressionEvaluator::eval_binary_op" bounds="all pairs" unwind=4
+#[kani::proof]
+#[kani::unwind(4)]
+fn c05_binop_is_bool() {
+    let (x, y): (bool, bool) = (kani::any(), kani::any());
+    kani::cover!(true, "reach");
+    with_ev!(ev, {
+        let (a, b) = (DataType::Bool(Bool(x)), DataType::Bool(Bool(y)));
+        assert!(cmp_one(&ev, &a, &b, BinaryOperator::Is, x == y), "is_on_booleans");
+        assert!(cmp_one(&ev, &a, &b, BinaryOperator::IsNot, x != y), "is_not_on_booleans");
+    });
+}
+// SQL: `NULL IS TRUE` = FALSE, `NULL IS NOT TRUE` = TRUE (IS never yields UNKNOWN)
+// @obl harness=c05_binop_is_null_lhs id=C05.binop[Is,IsNot][Null,Bool] tier=quick funcs="ExpressionEvaluator::eval_binary_op" bounds="NULL IS [NOT] TRUE/FALSE" unwind=4
+#[kani::proof]
+#[kani::unwind(4)]
+fn c05_binop_is_null_lhs() {
+    let y: bool = kani::any();
+    kani::cover!(true, "reach");
+    with_ev!(ev, {
+        let (a, b) = (DataType::Null, DataType::Bool(Bool(y)));
+        assert!(cmp_one(&ev, &a, &b, BinaryOperator::Is, false), "null_is_bool_is_false");
+        assert!(cmp_one(&ev, &a, &b, BinaryOperator::IsNot, true), "null_is_not_bool_is_true");
+    });
+}
+
+// =====================================================================================================================
+// arithmetic: reference = the operands promoted as documented (types/numeric.rs) + checked i64/u64 / IEEE f64
+// =====================================================================================================================
+const ADD: u8 = 0;
+const SUB: u8 = 1;
+const MUL: u8 = 2;
+const DIV: u8 = 3;
+const REM: u8 = 4;
+fn binop_of(op: u8) -> BinaryOperator {
+    match op {
+        ADD => BinaryOperator::Plus,
+        SUB => BinaryOperator::Minus,
+        MUL => BinaryOperator::Multiply,
+        DIV => BinaryOperator::Divide,
+        _ => BinaryOperator::Modulo,
+    }
+}
+fn is_unsigned(d: &DataType) -> bool {
+    matches!(d, DataType::UInt(_) | DataType::BigUInt(_))
+}
+fn is_floating(d: &DataType) -> bool {
+    matches!(d, DataType::Float(_) | DataType::Double(_))
+}
+/// mathematical value of an integer operand
+fn ival(d: &DataType) -> i128 {
+    match mathval(d) {
+        Ok(n) => n,
+        Err(_) => unreachable!(),
+    }
+}
+fn fval(d: &DataType) -> f64 {
+    match d {
+        DataType::Int(v) => v.0 as f64,
+        DataType::BigInt(v) => v.0 as f64,
+        DataType::UInt(v) => v.0 as f64,
+        DataType::BigUInt(v) => v.0 as f64,
+        DataType::Float(v) => v.0 as f64,
+        DataType::Double(v) => v.0,
+        _ => unreachable!(),
+    }
+}
+/// Reference result.  Some(Some(v)): defined value v.  Some(None): outside the reference's domain (overflow of the
+/// result type, division by zero, operand not representable in the promoted type) - nothing is claimed about the
+/// value there (C16 decides whether it panics).  Integer pairs: signed if any operand is signed.
+fn reference(op: u8, a: &DataType, b: &DataType) -> Option<DataType> {
+    if is_floating(a) || is_floating(b) {
+        let (x, y) = (fval(a), fval(b));
+        let r = match op {
+            ADD => x + y,
+            SUB => x - y,
+            MUL => x * y,
+            DIV => x / y,
+            _ => x % y,
+        };
+        return Some(DataType::Double(Float64(r)));
+    }
+    if is_unsigned(a) && is_unsigned(b) {
+        let (x, y) = (ival(a) as u64, ival(b) as u64);
+        let r = match op {
+            ADD => x.checked_add(y),
+            SUB => x.checked_sub(y),
+            MUL => x.checked_mul(y),
+            DIV => x.checked_div(y),
+            _ => x.checked_rem(y),
+        };
+        return r.map(|v| DataType::BigUInt(UInt64(v)));
+    }
+    let (xa, ya) = (ival(a), ival(b));
+    if xa > i64::MAX as i128 || ya > i64::MAX as i128 {
+        return None; // BigUInt >= 2^63 next to a signed operand: not representable in the promoted type i64
+    }
+    let (x, y) = (xa as i64, ya as i64);
+    let r = match op {
+        ADD => x.checked_add(y),
+        SUB => x.checked_sub(y),
+        MUL => x.checked_mul(y),
+        DIV => x.checked_div(y),
+        _ => x.checked_rem(y),
+    };
+    r.map(|v| DataType::BigInt(Int64(v)))
+}
+/// bit-identical value of the same kind (NaN payloads: the reference and the code perform the same IEEE operation)
+fn same_value(got: &DataType, want: &DataType) -> bool {
+    match (got, want) {
+        (DataType::BigInt(x), DataType::BigInt(y)) => x.0 == y.0,
+        (DataType::BigUInt(x), DataType::BigUInt(y)) => x.0 == y.0,
+        (DataType::Double(x), DataType::Double(y)) => x.0.to_bits() == y.0.to_bits() || (x.0.is_nan() && y.0.is_nan()),
+        _ => false,
+    }
+}
+// Cost note (measured): CBMC does not share the multiplier / divider circuit of the code with the one of the oracle, so
+// "both operands symbolic" is only affordable for +,- (and * on integers, split per pair).  For *, /, % on doubles and
+// /, % on integers one operand is symbolic at full width and the other is a constant (both orders): this still decides
+// operator identity, operand order and the promotion of the symbolic operand for every value.
+const S: u8 = 0; // symbolic operand
+const C: u8 = 1; // constant operand
+/// operand of kind k (0 Int, 1 BigInt, 2 UInt, 3 BigUInt, 4 Float, 5 Double): symbolic, or the constant 1000003 / 3.5
+fn operand(mode: u8, k: u8) -> DataType {
+    if mode == S {
+        match k {
+            0 => v_int(),
+            1 => v_bigint(),
+            2 => v_uint(),
+            3 => v_biguint(),
+            4 => v_float(),
+            _ => v_double(),
+        }
+    } else {
+        match k {
+            0 => DataType::Int(Int32(1000003)),
+            1 => DataType::BigInt(Int64(1000003)),
+            2 => DataType::UInt(UInt32(1000003)),
+            3 => DataType::BigUInt(UInt64(1000003)),
+            4 => DataType::Float(Float32(3.5)),
+            _ => DataType::Double(Float64(3.5)),
+        }
+    }
+}
+/// eval_binary_op on one pair inside the reference's domain
+fn arith_eval(ev: &ExpressionEvaluator<'_>, op: u8, a: DataType, b: DataType) {
+    let want = reference(op, &a, &b);
+    kani::cover!(want.is_some(), "reach");
+    if let Some(w) = &want {
+        let o = bin(ev, &a, &b, binop_of(op));
+        assert!(matches!(&o, Out::One(g) if same_value(g, w)), "arith_matches_reference");
+        std::mem::forget(o);
+    }
+    std::mem::forget(want);
+}
+macro_rules! harith_eval {
+    ($name:ident, $op:expr, $( ($ma:expr, $ka:expr, $mb:expr, $kb:expr) ),+) => {
+        #[kani::proof]
+        #[kani::unwind(4)]
+        fn $name() {
+            with_ev!(ev, {
+                $( arith_eval(&ev, $op, operand($ma, $ka), operand($mb, $kb)); )+
+            });
+        }
+    };
+}
+/// concrete operand of kind k holding the small integer v (negative only for signed kinds)
+fn point(k: u8, v: i32) -> DataType {
+    match k {
+        0 => DataType::Int(Int32(v)),
+        1 => DataType::BigInt(Int64(v as i64)),
+        2 => DataType::UInt(UInt32(v as u32)),
+        3 => DataType::BigUInt(UInt64(v as u64)),
+        4 => DataType::Float(Float32(v as f32)),
+        _ => DataType::Double(Float64(v as f64)),
+    }
+}
+fn signed_kind(k: u8) -> bool {
+    k != 2 && k != 3
+}
+// @obl harness=c05_binop_plus_int id=C05.binop[Plus][BigInt,BigInt|Int,Int|Int,BigInt] tier=quick funcs="ExpressionEvaluator::eval_binary_op,DataType::add" bounds="both operands symbolic, full width" assume="no i64 overflow" unwind=4
+harith_eval!(c05_binop_plus_int, ADD, (S, 1, S, 1), (S, 0, S, 0), (S, 0, S, 1));
+// @obl harness=c05_binop_plus_double id=C05.binop[Plus][Double,Double|Int,Double] tier=quick funcs="ExpressionEvaluator::eval_binary_op,DataType::add" bounds="both operands symbolic, every f64 bit pattern / every i32" unwind=4
+harith_eval!(c05_binop_plus_double, ADD, (S, 5, S, 5), (S, 0, S, 5));
+// @obl harness=c05_binop_minus_int id=C05.binop[Minus][BigInt,BigInt|Int,Int|Int,BigInt] tier=quick funcs="ExpressionEvaluator::eval_binary_op,DataType::sub" bounds="both operands symbolic, full width" assume="no i64 overflow" unwind=4
+harith_eval!(c05_binop_minus_int, SUB, (S, 1, S, 1), (S, 0, S, 0), (S, 0, S, 1));
+// @obl harness=c05_binop_minus_double id=C05.binop[Minus][Double,Double|Double,BigInt] tier=quick funcs="ExpressionEvaluator::eval_binary_op,DataType::sub" bounds="both operands symbolic, every f64 bit pattern / every i64" unwind=4
+harith_eval!(c05_binop_minus_double, SUB, (S, 5, S, 5), (S, 5, S, 1));
+// @obl harness=c05_binop_multiply_int id=C05.binop[Multiply][Int,Int|BigInt,BigInt] tier=quick funcs="ExpressionEvaluator::eval_binary_op,DataType::mul" bounds="Int x Int both symbolic; BigInt symbolic (full width) x 1000003" assume="no i64 overflow" unwind=4
+harith_eval!(c05_binop_multiply_int, MUL, (S, 0, S, 0), (S, 1, C, 1));
+// @obl harness=c05_binop_multiply_double id=C05.binop[Multiply][Double,Double] tier=quick funcs="ExpressionEvaluator::eval_binary_op,DataType::mul" bounds="Double x 3.5 and 3.5 x Double, the other operand symbolic (every bit pattern)" unwind=4
+harith_eval!(c05_binop_multiply_double, MUL, (S, 5, C, 5), (C, 5, S, 5));
+// @obl harness=c05_binop_divide_int id=C05.binop[Divide][BigInt,BigInt] tier=quick funcs="ExpressionEvaluator::eval_binary_op,DataType::div" bounds="dividend 1000003, divisor symbolic full width (truncating division)" assume="divisor != 0" unwind=4
+harith_eval!(c05_binop_divide_int, DIV, (C, 1, S, 1));
+// @obl harness=c05_binop_divide_double id=C05.binop[Divide][Double,Double] tier=quick funcs="ExpressionEvaluator::eval_binary_op,DataType::div" bounds="dividend symbolic (every bit pattern), divisor 3.5" unwind=4
+harith_eval!(c05_binop_divide_double, DIV, (S, 5, C, 5));
+// @obl harness=c05_binop_modulo id=C05.binop[Modulo][BigInt,BigInt] tier=quick funcs="ExpressionEvaluator::eval_binary_op,DataType::rem" bounds="dividend 1000003, divisor symbolic full width" assume="divisor != 0" unwind=4
+harith_eval!(c05_binop_modulo, REM, (C, 1, S, 1));
+// concrete points pin the conventions that the symbolic harnesses cannot afford: truncation toward zero, sign of the
+// remainder = sign of the dividend, IEEE x / 0.0
+// @obl harness=c05_binop_divmod_points id=C05.binop[Divide,Modulo][points] tier=quick funcs="ExpressionEvaluator::eval_binary_op,DataType::div,DataType::rem" bounds="(+-17) op (+-5) on BigInt, Int; 1.0 / 0.0, -1.0 / 0.0, 0.0 / 0.0 on Double (concrete)" unwind=4
+#[kani::proof]
+#[kani::unwind(4)]
+fn c05_binop_divmod_points() {
+    kani::cover!(true, "reach");
+    with_ev!(ev, {
+        let q = |a: DataType, b: DataType, op: BinaryOperator| bin(&ev, &a, &b, op);
+        let o = q(point(1, -17), point(1, 5), BinaryOperator::Divide);
+        assert!(matches!(&o, Out::One(DataType::BigInt(v)) if v.0 == -3), "integer_division_truncates_toward_zero");
+        std::mem::forget(o);
+        let o = q(point(1, 17), point(1, -5), BinaryOperator::Divide);
+        assert!(matches!(&o, Out::One(DataType::BigInt(v)) if v.0 == -3), "integer_division_truncates_toward_zero");
+        std::mem::forget(o);
+        let o = q(point(1, -17), point(1, 5), BinaryOperator::Modulo);
+        assert!(matches!(&o, Out::One(DataType::BigInt(v)) if v.0 == -2), "remainder_has_sign_of_dividend");
+        std::mem::forget(o);
+        let o = q(point(0, 17), point(0, -5), BinaryOperator::Modulo);
+        assert!(matches!(&o, Out::One(DataType::BigInt(v)) if v.0 == 2), "remainder_has_sign_of_dividend");
+        std::mem::forget(o);
+        // (no concrete law for Double % Double: CBMC's model of f64 `%` is not fmod, e.g. -17.0 % 5.0 != -2.0 there)
+        let o = q(point(5, 1), point(5, 0), BinaryOperator::Divide);
+        assert!(matches!(&o, Out::One(DataType::Double(v)) if v.0 == f64::INFINITY), "double_division_by_zero_is_ieee");
+        std::mem::forget(o);
+        let o = q(point(5, -1), point(5, 0), BinaryOperator::Divide);
+        assert!(matches!(&o, Out::One(DataType::Double(v)) if v.0 == f64::NEG_INFINITY), "double_division_by_zero_is_ieee");
+        std::mem::forget(o);
+        let o = q(point(5, 0), point(5, 0), BinaryOperator::Divide);
+        assert!(matches!(&o, Out::One(DataType::Double(v)) if v.0.is_nan()), "double_division_by_zero_is_ieee");
+        std::mem::forget(o);
+    });
+}
+
+// ---- C05.value_arith: DataType::{add,sub,mul,div,rem} directly, every numeric type pair ---------------------------
+fn value_op(op: u8, a: &DataType, b: &DataType) -> Option<DataType> {
+    okf(match op {
+        ADD => a.add(b),
+        SUB => a.sub(b),
+        MUL => a.mul(b),
+        DIV => a.div(b),
+        _ => a.rem(b),
+    })
+}
+fn value_pair(op: u8, a: DataType, b: DataType) {
+    let want = reference(op, &a, &b);
+    kani::cover!(want.is_some(), "reach");
+    if let Some(w) = &want {
+        let r = value_op(op, &a, &b);
+        assert!(matches!(&r, Some(g) if same_value(g, w)), "value_arith_matches_reference");
+        std::mem::forget(r);
+    }
+    std::mem::forget(want);
+}
+/// every ordered pair of kinds (i, j), lo <= i < hi, that is an integer pair (float = false) resp. has a Float/Double
+/// operand (float = true); operands symbolic (S) or the constant 1000003 / 3.5 (C)
+fn pairs(op: u8, ma: u8, mb: u8, float: bool, lo: u8, hi: u8) {
+    let mut i = lo;
+    while i < hi {
+        let mut j = 0u8;
+        while j < 6 {
+            if (i >= 4 || j >= 4) == float {
+                value_pair(op, operand(ma, i), operand(mb, j));
+            }
+            j += 1;
+        }
+        i += 1;
+    }
+}
+/// the same pairs at concrete points: 17 op 5, and -17 op 5 / 17 op -5 where the kind is signed
+fn points(op: u8, float: bool) {
+    let mut i = 0u8;
+    while i < 6 {
+        let mut j = 0u8;
+        while j < 6 {
+            if (i >= 4 || j >= 4) == float {
+                value_pair(op, point(i, 17), point(j, 5));
+                if signed_kind(i) {
+                    value_pair(op, point(i, -17), point(j, 5));
+                }
+                if signed_kind(j) {
+                    value_pair(op, point(i, 17), point(j, -5));
+                }
+            }
+            j += 1;
+        }
+        i += 1;
+    }
+}
+macro_rules! hvalue {
+    ($name:ident, $op:expr, $ma:expr, $mb:expr, $float:expr, $lo:expr, $hi:expr) => {
+        #[kani::proof]
+        #[kani::unwind(8)]
+        fn $name() {
+            pairs($op, $ma, $mb, $float, $lo, $hi);
+        }
+    };
+}
+macro_rules! hpoints {
+    ($name:ident, $op:expr, $float:expr) => {
+        #[kani::proof]
+        #[kani::unwind(8)]
+        fn $name() {
+            points($op, $float);
+        }
+    };
+}
+macro_rules! hvalue_list {
+    ($name:ident, $( ($op:expr, $ma:expr, $ka:expr, $mb:expr, $kb:expr) ),+) => {
+        #[kani::proof]
+        #[kani::unwind(4)]
+        fn $name() {
+            $( value_pair($op, operand($ma, $ka), operand($mb, $kb)); )+
+        }
+    };
+}
+// integers: + and - with both operands symbolic for all 16 pairs --------------------------------------------------
+// @obl harness=c05_value_add_int id=C05.value_arith[add][16 integer pairs] tier=quick funcs="DataType::add,Promote::promote_lhs,Promote::promote_rhs" bounds="every ordered pair of {Int,BigInt,UInt,BigUInt}, both operands symbolic, full width" assume="operands representable in the promoted type, result representable (no overflow)" unwind=8
+hvalue!(c05_value_add_int, ADD, S, S, false, 0, 4);
+// @obl harness=c05_value_sub_int id=C05.value_arith[sub][16 integer pairs] tier=quick funcs="DataType::sub,Promote::promote_lhs,Promote::promote_rhs" bounds="every ordered pair of {Int,BigInt,UInt,BigUInt}, both operands symbolic, full width" assume="operands representable in the promoted type, result representable (no overflow)" unwind=8
+hvalue!(c05_value_sub_int, SUB, S, S, false, 0, 4);
+// integers: *, /, % at concrete points for all 16 pairs, symbolic for representative pairs
+// @obl harness=c05_value_muldivrem_int_points id=C05.value_arith[mul,div,rem][16 integer pairs/points] tier=quick funcs="DataType::mul,DataType::div,DataType::rem,Promote::promote_lhs,Promote::promote_rhs" bounds="every ordered integer pair at 17 op 5, -17 op 5, 17 op -5 (concrete: operator identity, operand order, truncation and sign conventions)" unwind=8
+#[kani::proof]
+#[kani::unwind(8)]
+fn c05_value_muldivrem_int_points() {
+    points(MUL, false);
+    points(DIV, false);
+    points(REM, false);
+}
+// @obl harness=c05_value_mul_narrow_signed id=C05.value_arith[mul][Int,Int|Int,UInt] tier=quick funcs="DataType::mul,Promote::promote_lhs,Promote::promote_rhs" bounds="both symbolic, every value"
+hvalue_list!(c05_value_mul_narrow_signed, (MUL, S, 0, S, 0), (MUL, S, 0, S, 2));
+// @obl harness=c05_value_mul_narrow_unsigned id=C05.value_arith[mul][UInt,Int|UInt,UInt] tier=quick funcs="DataType::mul,Promote::promote_lhs,Promote::promote_rhs" bounds="both symbolic, every value"
+hvalue_list!(c05_value_mul_narrow_unsigned, (MUL, S, 2, S, 0), (MUL, S, 2, S, 2));
+// @obl harness=c05_value_mul_wide_const id=C05.value_arith[mul][BigInt,BigInt|BigUInt,BigUInt|BigInt,BigUInt/sym x const] tier=quick funcs="DataType::mul,Promote::promote_lhs,Promote::promote_rhs" bounds="left operand symbolic full width, right operand 1000003" assume="no overflow"
+hvalue_list!(c05_value_mul_wide_const, (MUL, S, 1, C, 1), (MUL, S, 3, C, 3), (MUL, S, 1, C, 3));
+// @obl harness=c05_value_mul_signed id=C05.value_arith[mul][BigInt,BigInt] tier=quick funcs="DataType::mul,Promote::promote_lhs,Promote::promote_rhs" bounds="both symbolic, full width" assume="i64 product representable"
+hvalue_list!(c05_value_mul_signed, (MUL, S, 1, S, 1));
+// @obl harness=c05_value_mul_unsigned id=C05.value_arith[mul][UInt,BigUInt|BigUInt,BigUInt] tier=thorough funcs="DataType::mul,Promote::promote_lhs,Promote::promote_rhs" bounds="both symbolic, full width" assume="u64 product representable"
+hvalue_list!(c05_value_mul_unsigned, (MUL, S, 2, S, 3), (MUL, S, 3, S, 3));
+// @obl harness=c05_value_div_int_cs id=C05.value_arith[div][BigInt,BigInt|Int,Int/const / sym] tier=quick funcs="DataType::div,Promote::promote_lhs,Promote::promote_rhs" bounds="dividend 1000003, divisor symbolic full width" assume="divisor != 0"
+hvalue_list!(c05_value_div_int_cs, (DIV, C, 1, S, 1), (DIV, C, 0, S, 0));
+// @obl harness=c05_value_div_uint_cs id=C05.value_arith[div][BigUInt,BigUInt|BigInt,UInt/const / sym] tier=quick funcs="DataType::div,Promote::promote_lhs,Promote::promote_rhs" bounds="dividend 1000003, divisor symbolic full width" assume="divisor != 0"
+hvalue_list!(c05_value_div_uint_cs, (DIV, C, 3, S, 3), (DIV, C, 1, S, 2));
+// @obl harness=c05_value_rem_int_cs id=C05.value_arith[rem][BigInt,BigInt/const % sym] tier=quick funcs="DataType::rem,Promote::promote_lhs,Promote::promote_rhs" bounds="dividend 1000003, divisor symbolic full width" assume="divisor != 0"
+hvalue_list!(c05_value_rem_int_cs, (REM, C, 1, S, 1));
+// @obl harness=c05_value_rem_uint_cs id=C05.value_arith[rem][BigUInt,BigUInt/const % sym] tier=thorough funcs="DataType::rem,Promote::promote_lhs,Promote::promote_rhs" bounds="dividend 1000003, divisor symbolic full width" assume="divisor != 0"
+hvalue_list!(c05_value_rem_uint_cs, (REM, C, 3, S, 3));
+// @obl harness=c05_value_div_int_sc id=C05.value_arith[div][BigInt,BigInt/sym / const] tier=thorough funcs="DataType::div" bounds="dividend symbolic full width, divisor 1000003"
+hvalue_list!(c05_value_div_int_sc, (DIV, S, 1, C, 1));
+// floats: + with one symbolic operand (each side) for all 20 pairs: decides every `as f64` promotion at full width ---
+// @obl harness=c05_value_add_float_sc_a id=C05.value_arith[add][float pairs, left integer kind/sym + const] tier=quick funcs="DataType::add,Promote::promote_lhs,Promote::promote_rhs" bounds="the 8 ordered float pairs whose left kind is Int, BigInt, UInt or BigUInt; left operand symbolic (full width / every bit pattern), right operand 3.5 resp. 1000003" unwind=8
+hvalue!(c05_value_add_float_sc_a, ADD, S, C, true, 0, 4);
+// @obl harness=c05_value_add_float_sc_b id=C05.value_arith[add][float pairs, left Float|Double/sym + const] tier=quick funcs="DataType::add,Promote::promote_lhs,Promote::promote_rhs" bounds="the 12 ordered pairs Float|Double x any kind; left operand symbolic, right constant" unwind=8
+hvalue!(c05_value_add_float_sc_b, ADD, S, C, true, 4, 6);
+// @obl harness=c05_value_add_float_cs_a id=C05.value_arith[add][float pairs, left integer kind/const + sym] tier=quick funcs="DataType::add,Promote::promote_lhs,Promote::promote_rhs" bounds="the 8 ordered float pairs whose left kind is Int, BigInt, UInt or BigUInt; right operand symbolic, left constant" unwind=8
+hvalue!(c05_value_add_float_cs_a, ADD, C, S, true, 0, 4);
+// @obl harness=c05_value_add_float_cs_b id=C05.value_arith[add][float pairs, left Float|Double/const + sym] tier=quick funcs="DataType::add,Promote::promote_lhs,Promote::promote_rhs" bounds="the 12 ordered pairs Float|Double x any kind; right operand symbolic, left constant" unwind=8
+hvalue!(c05_value_add_float_cs_b, ADD, C, S, true, 4, 6);
+// floats: -, *, /, % at concrete points for all 20 pairs
+// @obl harness=c05_value_float_points_submul id=C05.value_arith[sub,mul][20 float pairs/points] tier=quick funcs="DataType::sub,DataType::mul,Promote::promote_lhs,Promote::promote_rhs" bounds="every ordered pair with a Float/Double operand at 17 op 5, -17 op 5, 17 op -5 (concrete)" unwind=8
+#[kani::proof]
+#[kani::unwind(8)]
+fn c05_value_float_points_submul() {
+    points(SUB, true);
+    points(MUL, true);
+}
+// @obl harness=c05_value_float_points_divrem id=C05.value_arith[div,rem][20 float pairs/points] tier=quick funcs="DataType::div,DataType::rem,Promote::promote_lhs,Promote::promote_rhs" bounds="every ordered pair with a Float/Double operand at 17 op 5, -17 op 5, 17 op -5 (concrete; % compared with CBMC's own model of f64 %)" unwind=8
+#[kani::proof]
+#[kani::unwind(8)]
+fn c05_value_float_points_divrem() {
+    points(DIV, true);
+    points(REM, true);
+}
+// floats: symbolic operands for representative pairs
+// @obl harness=c05_value_float_ss id=C05.value_arith[add,sub][Float,Float|BigInt,Double] tier=quick funcs="DataType::add,DataType::sub" bounds="both operands symbolic, every bit pattern / every i64"
+hvalue_list!(c05_value_float_ss, (ADD, S, 4, S, 4), (SUB, S, 1, S, 5));
+// @obl harness=c05_value_float_sc id=C05.value_arith[sub,mul,div][Double,Double|Float,Double|BigInt,Double/sym op const] tier=quick funcs="DataType::sub,DataType::mul,DataType::div" bounds="left operand symbolic (every bit pattern / every i64), right operand 3.5; for - and * also 3.5 op symbolic"
+hvalue_list!(c05_value_float_sc, (SUB, S, 5, C, 5), (SUB, C, 5, S, 5), (MUL, S, 5, C, 5), (MUL, C, 4, S, 5), (MUL, S, 1, C, 5), (DIV, S, 5, C, 5));
+
+// A BigUInt >= 2^63 next to a signed operand is silently reinterpreted as a negative i64 (`rhs.0 as i64`): where the
+// code does not panic it returns a wrong value.  Reference here: exact integer arithmetic (i128).
+// @obl harness=c05_value_add_biguint_wrap id=C05.value_arith[add][BigInt x BigUInt>=2^63] tier=quick funcs="DataType::add,Promote::promote_rhs" bounds="all i64 x u64 >= 2^63 whose wrapped i64 sum does not overflow (no panic)"
+#[kani::proof]
+#[kani::unwind(4)]
+fn c05_value_add_biguint_wrap() {
+    let (x, y): (i64, u64) = (kani::any(), kani::any());
+    kani::assume(y > i64::MAX as u64);
+    kani::assume(x.checked_add(y as i64).is_some()); // the code's own i64 addition does not trap
+    kani::cover!(true, "reach");
+    let r = value_op(ADD, &DataType::BigInt(Int64(x)), &DataType::BigUInt(UInt64(y)));
+    let exact = x as i128 + y as i128;
+    let ok = match &r {
+        Some(DataType::BigInt(v)) => v.0 as i128 == exact,
+        Some(DataType::BigUInt(v)) => v.0 as i128 == exact,
+        Some(_) => false,
+        None => true, // an error would be an acceptable answer
+    };
+    assert!(ok, "value_arith_is_exact_or_error");
+    std::mem::forget(r);
+}
+
+// =====================================================================================================================
+// unary operators
+// =====================================================================================================================
+// @obl harness=c05_unary_not id=C05.unop[Not][Null|Bool|BigInt] tier=quick funcs="ExpressionEvaluator::eval_unary_op" bounds="NOT NULL = NULL, NOT TRUE = FALSE, NOT FALSE = TRUE; NOT <integer> is a type error" unwind=4
+#[kani::proof]
+#[kani::unwind(4)]
+fn c05_unary_not() {
+    let b: bool = kani::any();
+    kani::cover!(true, "reach");
+    with_ev!(ev, {
+        let o = un(&ev, &DataType::Null, UnaryOperator::Not);
+        assert!(is_null_out(&o), "not_null_is_null");
+        std::mem::forget(o);
+        let o = un(&ev, &DataType::Bool(Bool(b)), UnaryOperator::Not);
+        assert!(is_bool_out(&o, !b), "not_negates");
+        std::mem::forget(o);
+        let o = un(&ev, &v_bigint(), UnaryOperator::Not);
+        assert!(matches!(o, Out::Err), "not_on_non_bool_is_type_error");
+        std::mem::forget(o);
+    });
+}
+// @obl harness=c05_unary_minus id=C05.unop[Minus,Plus][Null|Int|BigInt|Float|Double] tier=quick funcs="ExpressionEvaluator::eval_unary_op" bounds="every value except Int/BigInt MIN (see C16.unary_minus)" assume="operand != MIN" unwind=4
+#[kani::proof]
+#[kani::unwind(4)]
+fn c05_unary_minus() {
+    let (i, l, f, d): (i32, i64, f32, f64) = (kani::any(), kani::any(), kani::any(), kani::any());
+    kani::assume(i != i32::MIN && l != i64::MIN);
+    kani::cover!(true, "reach");
+    with_ev!(ev, {
+        let o = un(&ev, &DataType::Null, UnaryOperator::Minus);
+        assert!(is_null_out(&o), "minus_null_is_null");
+        std::mem::forget(o);
+        let o = un(&ev, &DataType::Int(Int32(i)), UnaryOperator::Minus);
+        assert!(matches!(&o, Out::One(DataType::Int(r)) if r.0 as i64 == -(i as i64)), "minus_negates_int");
+        std::mem::forget(o);
+        let o = un(&ev, &DataType::BigInt(Int64(l)), UnaryOperator::Minus);
+        assert!(matches!(&o, Out::One(DataType::BigInt(r)) if r.0 as i128 == -(l as i128)), "minus_negates_bigint");
+        std::mem::forget(o);
+        let o = un(&ev, &DataType::Float(Float32(f)), UnaryOperator::Minus);
+        assert!(matches!(&o, Out::One(DataType::Float(r)) if r.0.to_bits() == (f.to_bits() ^ 0x8000_0000)), "minus_flips_sign_float");
+        std::mem::forget(o);
+        let o = un(&ev, &DataType::Double(Float64(d)), UnaryOperator::Minus);
+        assert!(matches!(&o, Out::One(DataType::Double(r)) if r.0.to_bits() == (d.to_bits() ^ (1u64 << 63))), "minus_flips_sign_double");
+        std::mem::forget(o);
+        let o = un(&ev, &DataType::BigInt(Int64(l)), UnaryOperator::Plus);
+        assert!(matches!(&o, Out::One(DataType::BigInt(r)) if r.0 == l), "plus_is_identity");
+        std::mem::forget(o);
+        let o = un(&ev, &DataType::Null, UnaryOperator::Plus);
+        assert!(is_null_out(&o), "plus_null_is_null");
+        std::mem::forget(o);
+        let o = un(&ev, &v_bool(), UnaryOperator::Minus);
+        assert!(matches!(o, Out::Err), "minus_on_bool_is_type_error");
+        std::mem::forget(o);
+    });
+}
+// @obl harness=c16_unary_minus_int_min id=C16.unary_minus[Int/MIN] tier=quick funcs="ExpressionEvaluator::eval_unary_op" bounds="-(Int(i32::MIN))" unwind=4
+#[kani::proof]
+#[kani::unwind(4)]
+fn c16_unary_minus_int_min() {
+    kani::cover!(true, "reach");
+    with_ev!(ev, {
+        let o = un(&ev, &DataType::Int(Int32(i32::MIN)), UnaryOperator::Minus);
+        std::mem::forget(o);
+    });
+}
+// @obl harness=c16_unary_minus_bigint_min id=C16.unary_minus[BigInt/MIN] tier=quick funcs="ExpressionEvaluator::eval_unary_op" bounds="-(BigInt(i64::MIN))" unwind=4
+#[kani::proof]
+#[kani::unwind(4)]
+fn c16_unary_minus_bigint_min() {
+    kani::cover!(true, "reach");
+    with_ev!(ev, {
+        let o = un(&ev, &DataType::BigInt(Int64(i64::MIN)), UnaryOperator::Minus);
+        std::mem::forget(o);
+    });
+}
+// ABS(x) as the evaluator calls it (`Abs::call`): MIN panics, everything else is |x|
+// @obl harness=c16_abs_call_min id=C16.abs_call[Int/MIN|BigInt/MIN] tier=quick funcs="Abs::call,DataType::abs" bounds="ABS(Int MIN), ABS(BigInt MIN)" unwind=4
+#[kani::proof]
+#[kani::unwind(4)]
+fn c16_abs_call_min() {
+    let which: bool = kani::any();
+    kani::cover!(true, "reach");
+    let arg = if which { DataType::Int(Int32(i32::MIN)) } else { DataType::BigInt(Int64(i64::MIN)) };
+    let r = okf(Abs::call(vec![arg]));
+    std::mem::forget(r);
+}
+
+
